@@ -107,7 +107,7 @@ PoolOf(fam) ==
 Unary ==
   CASE Family = "prim"   -> {"arr", "objReq", "objOpt", "alias"}
     [] Family = "object" -> {"objReq", "objOpt", "index", "arr", "alias", "rec", "iface"}
-    [] Family = "tuple"  -> {"tup1", "tupRest0", "arr", "alias", "recTuple"}
+    [] Family = "tuple"  -> {"tup1", "tupRest0", "arr", "alias", "recTuple", "labels"}
     [] Family = "union"  -> {"arr", "objReq", "alias"}
     [] Family = "tpl"    -> {"arr", "objReq", "index", "indexKey", "indexKeyAny"}
     [] Family = "nonjson" -> {"arr", "objReq", "objOpt", "set", "alias"}
@@ -149,6 +149,7 @@ ApplyUnary(a, t) ==
     [] a = "indexKey" -> Obj(<<>>, <<Ix(t, TNumber)>>)
     [] a = "indexKeyAny" -> Obj(<<>>, <<Ix(t, Prim("unknown"))>>)
     [] a = "tup1"     -> Tup(<<t>>, <<>>)
+    [] a = "labels"   -> Deco("labels", t)            \* [e0: T0, ...rest: Array<R>] - the same type with element names
     [] a = "tupRest0" -> Tup(<<>>, <<t>>)
     [] a = "set"      -> SetT(t)
 
@@ -177,6 +178,7 @@ IndexKeyOK(t) == \/ t.t = "tpl" \/ (t.t = "prim" /\ t.p \in {"string", "number"}
                  \/ (t.t = "union" /\ \A i \in DOMAIN t.ms : IndexKeyOK(t.ms[i]))
 Wrap(a) == /\ a \in Unary \ {"alias", "rec", "recTuple", "iface", "shared"}
            /\ (a \in {"indexKey", "indexKeyAny"} => IndexKeyOK(ty))
+           /\ (a = "labels" => ty.t = "tuple")
            /\ ty' = ApplyUnary(a, ty)
            /\ UNCHANGED env
 
